@@ -39,14 +39,13 @@ def run(ctx):
         return ref is not None
 
     def modelled_unit(u, tops):
-        rc, wf_out, err = run_lines(ref, [str(u.ir_path)], ["wf"])
-        notes = ir_notes(u.ins)
-        ok = wf_out == ["ok true"] and not notes
-        if not ok:
+        mv = ModelView(u, ref)
+        d = mv.describe(u, tops)
+        if d:
             with lock:
                 stats["units_outside_model"] += 1
-                skipped.append({"unit": u.name, "why": "; ".join(notes[:5]) or "wf2 is false for the dump", "types": [name for tid, name, x in tops][:40]})
-        return ok
+                skipped.append(d)
+        return mv
 
     def valid_values(u, tops, rng, src):
         valid = [(tid, name, h) for tid, name, h in src.go_random(nrand)]
@@ -68,7 +67,7 @@ def run(ctx):
         rng = rngs[u.name]
         ubad, umism, uerr = [], [], []
         tops = unit_tops(u)
-        modelled = modelled_unit(u, tops)
+        mv = modelled_unit(u, tops)
         src = Sources(u, tops, rng, ref)
         valid, e = valid_values(u, tops, rng, src)
         if e:
@@ -76,11 +75,11 @@ def run(ctx):
         st = {"schemas": 1, "types": len(tops), "valid_values": len(valid), "reencodings": 0, "reenc_changed": 0, "oversize_inputs": 0, "truncated_inputs": 0, "rw_ops": 0}
         ukinds = {}
         ops = []      # (line, kind, expected rewrite or None, must be rejected)
-        if modelled:
-            rl = [f"reenc {tid} {name} {rng.getrandbits(30)} {h}" for tid, name, h in valid for _ in range(nre)]
-            rc, ro, err = run_lines(ref, [str(u.ir_path)], rl)
-            if rc != 0 or len(ro) != len(rl):
-                uerr.append((u.name, f"model driver failed: rc={rc} {err[-300:]}"))
+        if True:
+            rl = [f"reenc {tid} {name} {rng.getrandbits(30)} {h}" for tid, name, h in valid for _ in range(nre) if mv.covers(tid)]
+            ro, e = model_run(ref, mv, rl, 1)
+            if e:
+                uerr.append((u.name, e))
                 ro = []
             for l, o in zip(rl, ro):
                 f, g = l.split(" "), o.split(" ")
@@ -95,7 +94,7 @@ def run(ctx):
                     uerr.append((u.name, f"model could not re-encode a value written by Go: {trunc(l, 200)} -> {o}"))
         for tid, name, h in valid:
             b = bytes.fromhex(h) if h != "-" else b""
-            ob = oversize(rng, b)
+            ob = oversize(rng, b) if size_prefixed(u.ins, tid) else None
             if ob is not None:
                 ops.append((f"rw2 {tid} {name} {ob.hex()}", "oversize-declared-length", None, True))
                 st["oversize_inputs"] += 1
@@ -105,24 +104,21 @@ def run(ctx):
                 st["truncated_inputs"] += 1
         lines = [o[0] for o in ops]
         go = run_lines_resilient(u.gen.exe, [], lines, timeout=900)
-        mo = None
-        if modelled:
-            rc1, mo, err1 = run_lines(ref, [str(u.ir_path)], lines)
-            if rc1 != 0 or len(mo) != len(lines):
-                uerr.append((u.name, f"model driver failed: rc={rc1} {err1[-300:]}"))
-                mo = None
+        mo, e = model_run(ref, mv, lines, 1)
+        if e:
+            uerr.append((u.name, e))
         st["rw_ops"] = len(lines)
         for i, ((l, kind, want, must_reject), g) in enumerate(zip(ops, go)):
             f = l.split(" ")
             n = 0 if f[3] == "-" else len(f[3]) // 2
             if g.startswith(("panic", "crash", "driver-error")):
-                ubad.append((u.name, l, g, f"C13:panic:{u.name}:{f[2]}"))
+                ubad.append((u.name, l, g, crash_sig("C13", mv, u, f[1], f[2], g)))
             elif want is not None and g != f"ok {n} {want}":
                 # an admissible re-encoding must decode to the same value (same canonical rewrite), consuming all of it
                 ubad.append((u.name, l, g + " (wanted rewrite " + trunc(want, 80) + ")", f"C13:reencoding:{kind}:{u.name}:{f[2]}"))
             elif must_reject and g != "err":
                 ubad.append((u.name, l, g, f"C13:accepted-short-input:{u.name}:{f[2]}"))
-            if mo is not None and mo[i] != g:
+            if mo is not None and mo[i] is not None and mo[i] != g:
                 umism.append((u.name, l, mo[i], g))
         with lock:
             for k in st:
@@ -136,7 +132,7 @@ def run(ctx):
                 for _ in range(2):
                     j = rng.randrange(len(lines))
                     samples.append({"schema": u.name, "kind": ops[j][1], "op": trunc(lines[j], 200), "go": trunc(go[j], 120),
-                                    "model": trunc(mo[j], 120) if mo else "(unit outside the model)"})
+                                    "model": trunc(mo[j], 120) if mo and mo[j] is not None else "(type outside the model)"})
 
     def pair(i):
         uo, un = by_name.get(f"evo{i}_old"), by_name.get(f"evo{i}_new")
@@ -145,7 +141,7 @@ def run(ctx):
         rng = rngs[uo.name]
         ubad, umism, uerr = [], [], []
         tops_o, tops_n = unit_tops(uo), unit_tops(un)
-        mod_o = modelled_unit(uo, tops_o)
+        mv_o = modelled_unit(uo, tops_o)
         old_tid = {name: tid for tid, name, x in tops_o}
         new_tid = {name: tid for tid, name, x in tops_n}
         src = Sources(un, [t for t in tops_n if t[1] in old_tid], rng, ref)
@@ -153,12 +149,9 @@ def run(ctx):
         # written by the new code, read by the old code
         l1 = [f"rw2 {old_tid[name]} {name} {h}" for tid, name, h in vals]
         g1 = run_lines_resilient(uo.gen.exe, [], l1, timeout=600)
-        m1 = None
-        if mod_o:
-            rc, m1, err = run_lines(ref, [str(uo.ir_path)], l1)
-            if rc != 0 or len(m1) != len(l1):
-                uerr.append((uo.name, f"model driver failed: rc={rc} {err[-300:]}"))
-                m1 = None
+        m1, e = model_run(ref, mv_o, l1, 1)
+        if e:
+            uerr.append((uo.name, e))
         l2 = []
         for i1, (l, g) in enumerate(zip(l1, g1)):
             f, gf = l.split(" "), g.split(" ")
@@ -167,7 +160,7 @@ def run(ctx):
                 ubad.append((uo.name, l, g, f"C13:old-reader-refuses-new-writer:{f[2]}"))
             else:
                 l2.append((f"rw2 {new_tid[f[2]]} {f[2]} {gf[2]}", gf[2], f[2]))
-            if m1 is not None and m1[i1] != g:
+            if m1 is not None and m1[i1] is not None and m1[i1] != g:
                 umism.append((uo.name, l, m1[i1], g))
         # what the old code wrote (appended fields missing), read by the new code, and back
         g2 = run_lines_resilient(un.gen.exe, [], [x[0] for x in l2], timeout=600)
@@ -193,7 +186,7 @@ def run(ctx):
             mism.extend(umism)
             if l1:
                 samples.append({"schema": uo.name, "kind": "new-writer-old-reader", "op": trunc(l1[0], 200), "go": trunc(g1[0], 120),
-                                "model": trunc(m1[0], 120) if m1 else "(unit outside the model)"})
+                                "model": trunc(m1[0], 120) if m1 and m1[0] is not None else "(type outside the model)"})
 
     with ThreadPoolExecutor(max_workers=8) as ex:
         futs = [ex.submit(work, u) for u in units] + [ex.submit(pair, i) for i in range(npairs)]
